@@ -16,6 +16,8 @@ PROP_MODULES = {
     'C02': ['obligations.e2_jobs', 'obligations.cache_ops'],
     'C13': ['obligations.e2_jobs'],
     'C06': ['obligations.block_ops'],
+    'C11': ['obligations.persist_ops'],
+    'C12': ['obligations.persist_ops'],
     'C05': ['obligations.conc_ops', 'obligations.block_ops'],
     'C07': ['obligations.cache_ops', 'obligations.queue_ops'],
     'C14': ['obligations.cache_ops', 'obligations.queue_ops'],
